@@ -111,6 +111,11 @@ def pair_cases():
 
 
 STMTS = [  # (text, expected term of the statement list) ; dangling else must bind to the NEAREST if
+    # prefix ++ / -- are ONE token (maximal munch), not two stacked unary + / -
+    ("{ RdV = --RxV; }", '(SCons (SExpr (EAssign AAssign (EOp (OReg "R" "d")) (EUn UPreDec (EOp (OReg "R" "x"))))) SNil)'),
+    ("{ RdV = ++RxV; }", '(SCons (SExpr (EAssign AAssign (EOp (OReg "R" "d")) (EUn UPreInc (EOp (OReg "R" "x"))))) SNil)'),
+    ("{ RdV = RsV - --RxV; }", '(SCons (SExpr (EAssign AAssign (EOp (OReg "R" "d")) (EBin BSub (EOp (OReg "R" "s")) (EUn UPreDec (EOp (OReg "R" "x")))))) SNil)'),
+    ("{ RdV = RsV * ++RxV; }", '(SCons (SExpr (EAssign AAssign (EOp (OReg "R" "d")) (EBin BMul (EOp (OReg "R" "s")) (EUn UPreInc (EOp (OReg "R" "x")))))) SNil)'),
     ("{ if (RsV) if (RtV) RdV = 1; else RdV = 2; }",
      '(SCons (SIf (EOp (OReg "R" "s")) (SIf (EOp (OReg "R" "t")) (SExpr (EAssign AAssign (EOp (OReg "R" "d")) (EOp (ONum (1) false "")))) '
      '(Some (SExpr (EAssign AAssign (EOp (OReg "R" "d")) (EOp (ONum (2) false "")))))) None) SNil)'),
